@@ -147,8 +147,17 @@ func runR2e(c *Ctx, s *r2State) {
 	if !c.InScope("broadcast") {
 		return
 	}
-	// the two method values handed to the section callback (wherever in the package that call lives)
-	var bm, gm *types.Func
+	bm, gm := sectionMethods(c)
+	if bm == nil || gm == nil {
+		c.MissingAnchor("R2e", "the broadcast/getWaitCh method values handed to a section callback in package broadcast")
+		return
+	}
+	runR2eBody(c, s, bm, gm)
+}
+
+// sectionMethods: the two method values handed to the section callback in package broadcast (wherever
+// in the package that call lives): the implementations of broadcast() and getWaitCh().
+func sectionMethods(c *Ctx) (bm, gm *types.Func) {
 	for _, hd := range pkgDecls(c, "broadcast") {
 		hd := hd
 		ast.Inspect(hd.Decl.Body, func(n ast.Node) bool {
@@ -173,10 +182,10 @@ func runR2e(c *Ctx, s *r2State) {
 			return true
 		})
 	}
-	if bm == nil || gm == nil {
-		c.MissingAnchor("R2e", "the broadcast/getWaitCh method values handed to a section callback in package broadcast")
-		return
-	}
+	return bm, gm
+}
+
+func runR2eBody(c *Ctx, s *r2State, bm, gm *types.Func) {
 	// the wait channel is shared by every waiter that sampled since the last broadcast: anywhere in the
 	// package it is forgotten (set to nil) only after it was closed on the same path, and replaced by a
 	// new one only when there is none — otherwise waiters are left on a channel nobody will close
@@ -302,6 +311,11 @@ func runR2e(c *Ctx, s *r2State) {
 						continue
 					}
 					ok := len(ev.ArgVals) == 2 && ev.ArgVals[0].Kind == core.VBroadcast && ev.ArgVals[1].Kind == core.VGetWaitCh
+					// … or, with the lock taken by hand, the two methods HoldLock itself hands out
+					if !ok && len(ev.ArgVals) == 2 && ev.ArgVals[0].Kind == core.VMethodVal && ev.ArgVals[1].Kind == core.VMethodVal &&
+						ev.ArgVals[0].Fn == bm && ev.ArgVals[1].Fn == gm && len(ev.Locks) > 0 {
+						ok = true
+					}
 					s.note("R2e", core.FuncName(wd.Obj)+"/predicate-gets-section-functions", ev.Pos, !ok,
 						"Wait hands its predicate the broadcast and getWaitCh of the critical section it runs in",
 						"Wait calls its predicate with something other than the section's own broadcast/getWaitCh: a broadcast the predicate issues can be lost, or its wait channel is not the one the next broadcast closes", p)
@@ -692,6 +706,12 @@ func (s *r2State) interruptPath(d *core.FuncDecl, ctxP *types.Var, chans []*type
 				s.blockingSite(name, ev, nil, ctxP, ctxs, chans, p)
 			}
 		case core.KReturn:
+			// results assigned to named results / temporaries before the return read as if returned directly
+			if rs := returnExprs(p, i); len(rs) > 0 {
+				ev2 := *ev
+				ev2.Results = rs
+				ev = &ev2
+			}
 			// the arm on a cancel channel of promise.(*Promise).AwaitWithCancelCh reports context.Canceled:
 			// PromiseContainer's await loops pass their replacement channel there and read Canceled as "replaced"
 			if cancelArm && len(ev.Results) > 0 && core.RecvNamed(d.Obj) != nil && core.RecvNamed(d.Obj).Obj().Name() == "Promise" {
